@@ -16,6 +16,7 @@ import random
 import numpy as np
 
 from .. import core, nets, observe, tla, mc
+from . import c03
 
 LEVEL = "model_checking"
 
@@ -24,15 +25,17 @@ def flat(x):
     return [int(v) for v in np.asarray(x).reshape(-1)]
 
 
-def one_case(run, ct, rng, net, ssa, plan, tlc_values):
+def one_case(run, ct, rng, net, ssa, plan, tlc_values, route=None):
     desc = {"net": net.to_json(), "ssa": [list(p) for p in ssa], "plan": plan}
+    if route is not None:
+        desc["route"] = route
     inv = net._inv()
     arrays = nets.canon_arrays(net)
     try:
         with core.watchdog(120):
             tree = observe.build_tree(ct, net, ssa)
-            for ix, proj in plan:
-                tree.remove_ind_(net.lab[ix], project=proj)
+            # the sliced state is reached along a route with queries in between and restore / re-remove detours
+            desc["route"] = c03.apply_plan(tree, net, [tuple(p) for p in plan], rng, route=desc.get("route"))
             n = tree.nslices
             keys = [{inv[k]: int(v) for k, v in tree.slice_key(i).items()} for i in range(n)]
             opts = rng.choice([{}, {"prefer_einsum": True}, {"order": "dfs"}])
@@ -136,6 +139,7 @@ def judge(run, cases):
 def replay(run, desc):
     import cotengra as ct
     net = nets.Net.from_json(desc["net"])
-    r = one_case(run, ct, random.Random(0), net, [tuple(p) for p in desc["ssa"]], [tuple(p) for p in desc["plan"]], True)
+    r = one_case(run, ct, random.Random(0), net, [tuple(p) for p in desc["ssa"]], [tuple(p) for p in desc["plan"]], True,
+                 route=desc.get("route"))
     if r:
         judge(run, [r])
